@@ -179,9 +179,80 @@ def _cases(tier):
     return cases
 
 
+PROBE = """import os
+import pytest
+from inline_snapshot import snapshot
+
+
+def probe(name):
+    v = [1, {"k": 2}]
+    s = snapshot(v)
+    t = snapshot([3, 4])
+    os.makedirs("out", exist_ok=True)
+    with open(os.path.join("out", name + "-" + str(os.getpid()) + ".txt"), "w") as f:
+        f.write(" ".join([str(s is v), type(t).__name__, str(t == [3, 4])]))
+
+@TESTS@
+"""
+PROBE_TESTS = {
+    "plain": "def test_a():\n    probe('a')\n\n\ndef test_b():\n    probe('b')\n",
+    "xfail-function": "@pytest.mark.xfail\ndef test_a():\n    probe('a')\n\n\n@pytest.mark.xfail(reason='r', strict=False)\ndef test_b():\n    probe('b')\n",
+    "xfail-class": "@pytest.mark.xfail\nclass TestX:\n    def test_a(self):\n        probe('a')\n\n    def test_b(self):\n        probe('b')\n",
+    "xfail-module": "pytestmark = pytest.mark.xfail\n\n\ndef test_a():\n    probe('a')\n\n\nclass TestY:\n    def test_b(self):\n        probe('b')\n",
+    "xfail-then-plain": "@pytest.mark.xfail\ndef test_a():\n    probe('a')\n\n\ndef test_b():\n    probe('b')\n\n\ndef test_c():\n    probe('c')\n",
+    "xfail-false": "@pytest.mark.xfail(False, reason='no')\ndef test_a():\n    probe('a')\n",
+}
+# (argv, env, xdist) configurations in which inline-snapshot is disabled for the whole session
+DISABLED = [(["--inline-snapshot=disable"], {}, False), ([], {"CI": "true"}, False), (["--inline-snapshot=create"], {"GITHUB_ACTIONS": "1"}, False),
+            (["-n", "2"], {}, True), (["-n", "2", "--inline-snapshot=disable"], {}, True)]
+ACTIVE = [([], {}, False), (["--inline-snapshot=report"], {}, False), (["--inline-snapshot=fix"], {}, False), (["-n", "0"], {}, True)]
+
+
+def _probe_cases():
+    out = []
+    for prog in PROBE_TESTS:
+        for argv, env, xd in DISABLED:
+            out.append({"probe": prog, "argv": argv, "env": env, "xdist": xd, "disabled": True})
+        for argv, env, xd in ACTIVE:
+            out.append({"probe": prog, "argv": argv, "env": env, "xdist": xd, "disabled": False})
+    return out
+
+
+def _run_probe(c):
+    """Real sessions: which tests see snapshot(v) as v itself."""
+    from ..drivers import plugin
+
+    d = plugin.mk_project({"test_something.py": PROBE.replace("@TESTS@", PROBE_TESTS[c["probe"]]), "pyproject.toml": ""})
+    try:
+        r = plugin.session(d, c["argv"], env=c["env"], xdist=c["xdist"], timeout=240)
+        files = plugin.listing(d, text=True)
+    finally:
+        plugin.cleanup()
+    seen = {}
+    for k, v in files.items():
+        if k.startswith("out/"):
+            seen[k[4:].split("-")[0]] = v.split()
+    if plugin.internal_error(r["out"]) or not seen:
+        return ("probe-session-failed", "rc=%s %s" % (r["rc"], r["out"][-500:]))
+    prog = c["probe"]
+    for name, (is_v, tname, eq) in sorted(seen.items()):
+        marked = prog in ("xfail-function", "xfail-class", "xfail-module") or (prog == "xfail-then-plain" and name == "a")
+        expect_identity = c["disabled"] or marked
+        if expect_identity and (is_v != "True" or tname != "list"):
+            return ("disabled-snapshot-is-not-the-value", "test %s of %s with %s %s: snapshot(v) is v -> %s, type %s" % (name, prog, c["argv"], c["env"], is_v, tname))
+        if eq != "True":
+            return ("result-differs", "test %s: snapshot([3, 4]) == [3, 4] -> %s" % (name, eq))
+        if not expect_identity and tname == "list":
+            return ("harness-probe-cannot-see-the-wrapper", "test %s of %s with %s: active session returned a plain list" % (name, prog, c["argv"]))
+    return None
+
+
 def build(tier, seed):
     cs = _cases(tier)
-    return [{"cases": cs[i : i + BATCH]} for i in range(0, len(cs), BATCH)]
+    tasks = [{"cases": cs[i : i + BATCH]} for i in range(0, len(cs), BATCH)]
+    pc = _probe_cases()
+    tasks += [{"probes": pc[i : i + 4]} for i in range(0, len(pc), 4)]
+    return tasks
 
 
 def _one(x, op, s, keys):
@@ -311,11 +382,27 @@ def _nontrivial(c, ctx):
 def run_case(case):
     from ..engine import batch
 
+    if "probe" in case:
+        v = _run_probe(case)
+        return [{"case": case, "what": v[0], "detail": v[1]}] if v else []
     return batch.replay(case, _judge)
 
 
 def run_task(task):
     from ..engine import batch
+
+    if "probes" in task:
+        out = {"n": 0, "nontrivial": [], "outcomes": {}, "violations": [], "samples": []}
+        for c in task["probes"]:
+            out["n"] += 1
+            vs = run_case(c)
+            out["violations"] += vs
+            lab = "viol:" + vs[0]["what"] if vs else "ok:probe:" + ("disabled" if c["disabled"] else "active")
+            if not vs:
+                out["nontrivial"].append("probe" + repr(sorted(c.items(), key=str)))
+            out["outcomes"][lab] = out["outcomes"].get(lab, 0) + 1
+        out["samples"].append({"probe": task["probes"][0]})
+        return out
 
     return batch.run_batched(task["cases"], _judge,
                              label=lambda c: "ok:mixed" if "mixed" in c else "ok:" + c["op"],
